@@ -5,5 +5,6 @@ export GOFLAGS=-mod=mod GOPROXY=off GOSUMDB=off GOTOOLCHAIN=local
 cd /verif
 mkdir -p bin evidence replays
 (cd engine && go build -o /verif/bin/gosx ./cmd/gosx)
-(cd tools && cp /repo/go/go.sum go.sum && go build -o /verif/bin/dumpcases ./dumpcases)
+sed 's/^package vfsim/package main/' harness/pkg/vfsim/sim.go > tools/simdev/sim.go
+(cd tools && cp /repo/go/go.sum go.sum && go build -o /verif/bin/dumpcases ./dumpcases && go build -o /verif/bin/simdev ./simdev)
 echo "setup ok"
